@@ -367,4 +367,64 @@ Section Refine.
     intros Hf s. pose proof (restart_index_lag_pf cap ops cap' Hf) as H. fold s in H.
     rewrite flush_count_is_100 in H. apply Z.le_ge. apply Z.lt_le_incl. apply Z.gt_lt. exact H.
   Qed.
+  (* ---- the exact bound when the storage write of a flush fails: 100 more per failed flush ---- *)
+  (* resets persist and restarts load; the save a Record may trigger is arbitrary *)
+  Fixpoint ctl_ok (ops : list (bop A)) : bool :=
+    match ops with
+    | [] => true
+    | OReset _ ok :: r => ok && ctl_ok r
+    | ORestart _ ok :: r => ok && ctl_ok r
+    | _ :: r => ctl_ok r
+    end.
+
+  Definition gstep (a : aspec A) (g : Z) (o : bop A) : Z :=
+    match o with
+    | ORecord _ ok => if a_flush a - 1 <=? 0 then (if ok then 0 else g + 1) else g
+    | OReset _ _ | ORestart _ _ => 0
+    | _ => g
+    end.
+  (* the number of flushes whose storage write failed since the last successful persist *)
+  Fixpoint failed_flushes (a : aspec A) (g : Z) (ops : list (bop A)) : Z :=
+    match ops with [] => g | o :: r => failed_flushes (fst (arun_op a o)) (gstep a g o) r end.
+
+  Definition LagInvG (a : aspec A) (g : Z) : Prop :=
+    1 <= a_flush a <= flush_every /\ 0 <= g /\
+    a_next a = kv0 (a_kv a) + (flush_every - a_flush a) + flush_every * g.
+
+  Lemma lagg_step a g o : LagInvG a g -> ctl_ok [o] = true -> LagInvG (fst (arun_op a o)) (gstep a g o).
+  Proof.
+    intros (Hf & Hg & Hn) Hc. pose proof flush_every_pos as Hp.
+    destruct o as [r ok|i|i ok| | |cap ok]; cbn [arun_op fst gstep]; try exact (conj Hf (conj Hg Hn)).
+    - destruct (a_flush a - 1 <=? 0) eqn:E; destruct ok; unfold LagInvG, a_next in *;
+        cbn [fst a_flush a_kv a_base a_log kv0]; rewrite ?app_length; cbn [length]; nia.
+    - destruct ok; [|discriminate Hc].
+      unfold LagInvG, a_next; cbn [fst a_flush a_kv a_base a_log length kv0]. lia.
+    - destruct ok; [|discriminate Hc].
+      unfold LagInvG, a_next, reload_index; cbn [fst a_flush a_kv a_base a_log length]. destruct (a_kv a); cbn [kv0]; lia.
+  Qed.
+
+  Lemma lagg_run ops : forall a g, LagInvG a g -> ctl_ok ops = true ->
+    LagInvG (run_state arun_op a ops) (failed_flushes a g ops).
+  Proof.
+    induction ops as [|o ops IH]; intros a g I Hc; cbn [run_state failed_flushes]; [exact I|].
+    apply IH.
+    - apply lagg_step; [exact I|]. destruct o; cbn in *; try reflexivity; apply andb_true_iff in Hc as [-> _]; reflexivity.
+    - destruct o; cbn in Hc; try exact Hc; apply andb_true_iff in Hc as [_ H]; exact H.
+  Qed.
+
+  Theorem restart_index_lag_faulty_pf cap ops cap' :
+    ctl_ok ops = true ->
+    let s := run_state brun_op (binit cap) ops in
+    let g := failed_flushes (ainit cap) 0 ops in
+    0 <= g /\ next_index (buf (restart s cap' true)) > next_index (buf s) - 100 * (1 + g).
+  Proof.
+    intros Hc s g. pose proof (proj2 (sim_run ops _ _ (rel_init cap))) as R. fold s in R.
+    assert (I0 : LagInvG (ainit cap) 0).
+    { unfold LagInvG, ainit, a_next, flush_every; cbn. rewrite flush_count_is_100. lia. }
+    pose proof (lagg_run ops _ 0 I0 Hc) as (Hf & Hg & Hn). fold g in Hg, Hn.
+    split; [exact Hg|].
+    unfold next_index. rewrite (r_index _ _ R), Hn. unfold restart; cbn [buf new_buf index].
+    rewrite (r_kv _ _ R). unfold reload_index, flush_every, kv0 in *. rewrite flush_count_is_100 in *.
+    destruct (a_kv (run_state arun_op (ainit cap) ops)); lia.
+  Qed.
 End Refine.
